@@ -230,6 +230,51 @@ def sim_case(rng, profile, kind, tier):
         bdp = c["cap"] * (c["rtt"] + c["agg"]) // 1000
         c["queue"] = max(40000, 2 * bdp)
         c["dumpMax"], c["traceMax"], c["replayMax"] = 40, 40, 100
+    elif kind == "clean-lan":
+        # the short end of the RTT dimension: a loss-free LAN / same-metro path, 0.1..0.9 ms round trip at 3..40 Gbit/s with a
+        # bandwidth-delay product of 300..1000 datagrams (well above the 32-datagram initial window), never app-limited.  A round
+        # trip is less than one unit of any millisecond (and, at the fast end, 100 units of microsecond) arithmetic on durations;
+        # min_rtt x bandwidth is 10^13..10^15 in the code's ns x bits/s units.  Acks on a 10..50 us grid (at most a fifth of a
+        # round trip).  Everything scales with the round trip, so the run lasts 120..480 ms (~350k datagrams; 500..1200 round
+        # trips) and is judged in three windows of a sixth of it (>= 22 round trips = 2+ PROBE_BW gain cycles), from half-time on:
+        # each must deliver >= 50% of capacity, as in `clean`
+        c["clean"] = True
+        c["rttUs"] = rng.choice([100, 150, 200, 300, 400, 500, 600, 750, 900, rng.randrange(100, 901)])
+        c["rtt"] = 0
+        bdp_pk = rng.choice([300, 400, 600, 800, 1000])
+        c["cap"] = max(400000000, min(5000000000, bdp_pk * 1250 * 1000000 // c["rttUs"]))
+        c["aggUs"] = rng.choice([g for g in [10, 20, 25, 50] if 5 * g <= c["rttUs"]])
+        c["gap"], c["nonrtx"] = rng.choice([0, 2]), rng.choice([0, 2])
+        c["dur"] = max(120, min(480, 350000 * 1250 * 1000 // c["cap"])) // 6 * 6
+        c["thrWin"] = c["dur"] // 6
+        c["thrFrom"], c["thrMinPm"] = 3 * c["thrWin"], 500
+        c["warmMs"] = c["thrFrom"]
+        c["mtu"] = [[rng.randrange(1, c["dur"] // 3), 1452]] if rng.random() < 0.5 else []
+        bdp = c["cap"] * c["rttUs"] // 1000000
+        c["queue"] = max(40000, 2 * bdp)
+        c["dumpMax"], c["traceMax"], c["replayMax"] = 24, 30, 80
+    elif kind == "clean-far":
+        # the long end of the RTT dimension: a loss-free path with a 0.5..2 s round trip (geostationary hops, badly bloated
+        # links) at moderate capacity (0.25..10 MB/s; bandwidth-delay product 400..4000 datagrams, below the maximum window),
+        # acks released every 5..20 ms, never app-limited.  A round trip is longer than probeRttTime (200 ms) and a sizeable
+        # part of minRttExpiry (10 s): STARTUP takes 10+ round trips and can be cut by the first min_rtt expiry, every
+        # PROBE_RTT episode (one per minRttExpiry + ~2 round trips) costs 2+ round trips without data, i.e. up to ~30% of the
+        # time at 2 s.  Judged in two windows of 15 round trips (>= 2 PROBE_RTT periods at 2 s) from 25 round trips on: each
+        # must deliver >= 50% of capacity, as in `clean`
+        c["clean"] = True
+        c["rtt"] = rng.choice([500, 750, 1000, 1500, 2000])
+        bdp_pk = rng.choice([400, 1000, 2000, 4000])
+        c["cap"] = bdp_pk * 1250 * 1000 // c["rtt"]
+        c["agg"] = rng.choice([5, 10, 20])
+        c["gap"], c["nonrtx"] = rng.choice([0, 5]), rng.choice([0, 10])
+        c["thrWin"] = 15 * c["rtt"]
+        c["thrFrom"], c["thrMinPm"] = 25 * c["rtt"], 500
+        c["warmMs"] = c["thrFrom"]
+        c["dur"] = c["thrFrom"] + 2 * c["thrWin"]
+        c["mtu"] = [[rng.randrange(500, 6000), 1452]] if rng.random() < 0.5 else []
+        bdp = c["cap"] * c["rtt"] // 1000
+        c["queue"] = max(40000, 2 * bdp)
+        c["dumpMax"], c["traceMax"], c["replayMax"] = 40, 40, 100
     elif kind == "fast-idle":
         # very fast path (1..10 GB/s, 1-2 ms), a short ramp to full rate, then application idle gaps of 5..30 s with short sending
         # phases in between: pacer rate x time since the last packet is between 0.5 and 32 times 2^63 at the resumes (the int64 product
@@ -388,6 +433,18 @@ def gen(rng, tier):
         cases.append(gen_pq(rng, 700, size=256, style="sender"))
     for _ in range(24 * scale):
         cases.append(gen_wf(rng, rng.choice([30, 80])))
+    # the throughput clause over the RTT dimension, every profile at both extremes: sub-millisecond round trips at multi-Gbit/s
+    # (BDP 300..1000 datagrams) and 0.5..2 s round trips at moderate capacity.  (Generated last: the cases above are the same
+    # as before for a given seed.)
+    for prof in PROFILES:
+        cases.append(sim_case(rng, prof, "clean-lan", tier))
+    for prof in PROFILES:
+        cases.append(sim_case(rng, prof, "clean-far", tier))
+    if tier != "quick":
+        for _ in range(12):
+            cases.append(sim_case(rng, rng.choice(PROFILES), "clean-lan", tier))
+        for _ in range(12):
+            cases.append(sim_case(rng, rng.choice(PROFILES), "clean-far", tier))
     return cases
 
 
@@ -529,7 +586,10 @@ RULE = ("seeded generator. Layers 2-3: a discrete-event bottleneck simulator ins
         "the loss-free fixed-capacity runs (one per profile, 0.6..2.5 MB/s x 20..150 ms, 32 s simulated: through the first min_rtt expiry after 10 s, its PROBE_RTT episode and 20 s beyond) "
         "must deliver >= 50% of capacity in EVERY 5 s window from 12 s on; the same verdict over the capacity dimension (kind clean-fast-lo/-mid/-hi, one per profile, bands permuted over the profiles: "
         "200 Mbit/s .. 2 Gbit/s x 2..20 ms, acks on a 0.3..2 ms grid chosen per band so that a wake-up - pacer timer or arriving ack - limited to 10 datagrams stays below half of capacity; 17.5..22.5 s simulated) "
-        "and under ack aggregation (kind clean-agg, every profile: 50..200 Mbit/s x 10..40 ms, acks released every 2..10 ms, i.e. 10..170 packets newly acknowledged per ack event; 27.5 s simulated); very fast paths with application idle gaps (kind fast-idle, one per profile: 1..10 GB/s x 1-2 ms, a 15..72 ms ramp, "
+        "and under ack aggregation (kind clean-agg, every profile: 50..200 Mbit/s x 10..40 ms, acks released every 2..10 ms, i.e. 10..170 packets newly acknowledged per ack event; 27.5 s simulated) and over the RTT dimension at both extremes, every profile each: kind clean-lan = 0.1..0.9 ms round trip at 3..40 Gbit/s with a bandwidth-delay product of 300..1000 datagrams "
+        "(a round trip below one unit of millisecond arithmetic; acks on a 10..50 us grid; 120..480 ms simulated = 500..1200 round trips, three windows of a sixth of the run from half-time on), kind clean-far = "
+        "0.5..2 s round trip at 0.25..10 MB/s (BDP 400..4000 datagrams; a round trip above probeRttTime and a sizeable part of minRttExpiry; 55 round trips simulated, two windows of 15 round trips from 25 round trips on); "
+        "very fast paths with application idle gaps (kind fast-idle, one per profile: 1..10 GB/s x 1-2 ms, a 15..72 ms ramp, "
         "then 3-5 idle gaps of 5..30 s with millisecond sending phases between them, so that pacer rate x time since the last packet is 0.5..100 x 2^63 at the resumes - the int64 product of "
         "Pacer.Budget not wrapped, wrapped negative, wrapped back to non-negative; acks on a 100-250 us grid); the long-run clauses (PROBE_RTT spacing, throughput windows) do not end the run, "
         "the replay lists the first violation of each; a sample of events "
@@ -593,7 +653,10 @@ LEVEL_TEXT = ("Machine-checked Coq theorems over a hand-written Gallina model of
               "no shrinking budget while bandwidth x elapsed < 2^63, a full burst when the product wrapped negative; clamping a negative budget to zero is refuted "
               "(C12_pacer_negative_budget_must_not_clamp_to_zero); the pacer does not cap the rate below the bandwidth it is given (C12_pacer_burst_sustains_rate: the burst cap is at least 4 x "
               "what the bandwidth delivers per MinPacingDelay, and a wake-up one MinPacingDelay after the last packet has at least that much budget). "
-              "Throughput on a loss-free path: no theorem; harness verdict on the simulator (every 5 s window >= 50% of capacity; 0.6 MB/s .. 250 MB/s, with and without ack aggregation).")
+              "Throughput on a loss-free path: no theorem; harness verdict on the simulator (every 5 s window >= 50% of capacity; 0.6 MB/s .. 250 MB/s, with and without ack aggregation; round trips of 0.1..0.9 ms at up to 5 GB/s and of 0.5..2 s, windows scaled with the round trip), "
+              "supported by C12_bdp_exact: bdpFromRttAndBandwidth is the exact floor of min_rtt x bandwidth in bytes whenever the ns x bits/s product fits int64 - it holds n bytes as soon as the "
+              "path does, for ANY min_rtt, and is zero (getTargetCongestionWindow's initial-window fallback) only when the path holds less than one byte; a version on whole milliseconds is zero for every "
+              "sub-millisecond min_rtt whatever the bandwidth.")
 LEVEL_NOTE = ("Trusted: Coq kernel + vm_compute; hand-written model (tie = sampled differential testing + regenerated ParamsC12); python/Go glue; the "
               "simulator's rendering of quic-go's call discipline. No axioms beyond Coq's float / int63 primitives in the layer 3 theorems. "
               "Not proved: numeric properties of the float results (bandwidth estimate accuracy, gain x BDP bounds), recovery-state range, "
@@ -675,7 +738,9 @@ def run(ctx):
     hist, nontriv = {}, set()
     supporting = {"label": "no theorem covers throughput/convergence; loss-free, never app-limited simulated bottleneck of fixed capacity, 17.5..32 s "
                            "per profile and class (clean: 0.6..2.5 MB/s; clean-fast-*: 25..250 MB/s; clean-agg: 6..25 MB/s with acks released every 2..10 ms); ratio = bytes delivered after the first 2 s / (capacity * time); window_ratios = the same per 5 s "
-                           "window from 12 s on (after the first min_rtt expiry and its PROBE_RTT episode): each must be >= 0.5 (harness verdict)",
+                           "window from 12 s on (after the first min_rtt expiry and its PROBE_RTT episode): each must be >= 0.5 (harness verdict). RTT extremes: clean-lan = 0.1..0.9 ms x 0.4..5 GB/s "
+                           "(BDP 300..1000 datagrams; 120..480 ms simulated, three windows of a sixth of the run from half-time on, ratio counted from half-time), clean-far = 0.5..2 s x 0.25..10 MB/s "
+                           "(55 round trips simulated, two windows of 15 round trips from 25 round trips on, ratio counted from there)",
                   "threshold": 0.5, "runs": []}
     for c, o in zip(cases, outs):
         k = klass(c, o)
@@ -687,7 +752,8 @@ def run(ctx):
                                "fingerprint": fingerprint(c, o), "found_input": True})
         if c["k"] == "sim" and c["sim"].get("clean") and o.get("stats"):
             r = o["stats"]["throughputRatio"]
-            supporting["runs"].append({"profile": c["sim"]["profile"], "capacity_Bps": c["sim"]["cap"], "rtt_ms": c["sim"]["rtt"],
+            supporting["runs"].append({"profile": c["sim"]["profile"], "capacity_Bps": c["sim"]["cap"],
+                                       "rtt_ms": c["sim"]["rttUs"] / 1000.0 if c["sim"].get("rttUs") else c["sim"]["rtt"],
                                        "kind": c["sim"]["kind"], "ack_grid_us": c["sim"].get("aggUs") or 1000 * c["sim"].get("agg", 0),
                                        "duration_ms": c["sim"]["dur"], "throughput_ratio": round(r, 4),
                                        "window_ratios": o["stats"].get("windowRatios"), "probe_rtt_entries_ms": o["stats"].get("probeRttEntriesMs")})
